@@ -137,7 +137,22 @@ def reduced_sdl(sdl: str, thin: bool = False) -> Optional[str]:
         defs = {d.name.value: d for d in doc.definitions if isinstance(d, gast.TypeDefinitionNode)}
         for r in roots:
             d = defs[r]
-            d.fields = tuple(d.fields[:1])
+            if thin != "leaves":  # (the leaves-only variant keeps every root field: all the types the roots return are known to it, nothing beyond them)
+                d.fields = tuple(d.fields[:1])
+        def names_in(node) -> List[str]:
+            out: List[str] = []
+            stack = [node]
+            while stack:
+                n = stack.pop()
+                if isinstance(n, gast.NamedTypeNode):
+                    out.append(n.name.value)
+                for k in getattr(n, "keys", ()):
+                    v = getattr(n, k, None)
+                    if isinstance(v, gast.Node):
+                        stack.append(v)
+                    elif isinstance(v, (list, tuple)):
+                        stack.extend(x for x in v if isinstance(x, gast.Node))
+            return out
         if thin:
             # ... and every other object / interface type keeps its first field plus what its (equally thinned) interfaces demand: the same type NAMES with fewer members
             kept: Dict[str, set] = {}
@@ -149,6 +164,11 @@ def reduced_sdl(sdl: str, thin: bool = False) -> Optional[str]:
                 if d_ is None or name in seen or not isinstance(d_, (gast.ObjectTypeDefinitionNode, gast.InterfaceTypeDefinitionNode)) or not d_.fields:
                     return set()
                 ks = {d_.fields[0].name.value}
+                if thin == "leaves":
+                    # every field that does not lead to another object / interface / union type: what the real schema reaches THROUGH this type is unknown to the decoy
+                    composite = {n2 for n2, d2 in defs.items() if isinstance(d2, (gast.ObjectTypeDefinitionNode, gast.InterfaceTypeDefinitionNode, gast.UnionTypeDefinitionNode))}
+                    leaves = {f_.name.value for f_ in d_.fields if not (set(names_in(f_.type)) & composite)}
+                    ks = leaves or ks
                 for i_ in d_.interfaces or ():
                     ks |= kept_of(i_.name.value, tuple(seen) + (name,))
                 kept[name] = ks
